@@ -53,6 +53,28 @@ static void emit_syn (const unsigned char *s, int len)
   fputs ("syn ", stdout); put_hex (s, len);
   printf (" %d%d%d%d%d%d%d\n", !!m, !!i, !!e, !!b, !!n, !!p, !!u);
   n_lines++;
+  if (len <= 600)
+    {
+      /* the verdicts are about the bytes [start, start+len) and nothing else: the same text inside a longer string (as a
+       * header field lies inside a header), with dots, slashes and colons before and after it */
+      static unsigned char inside[2 + 600 + 8];
+      DBusString s3;
+      int m3, i3, e3, b3, n3, p3;
+      memcpy (inside, "Z.", 2); memcpy (inside + 2, s, len); memcpy (inside + 2 + len, ".a/b:c_", 8);
+      _dbus_string_init_const_len (&s3, (const char *) inside, 2 + len + 8);
+      m3 = _dbus_validate_member (&s3, 2, len);
+      i3 = _dbus_validate_interface (&s3, 2, len);
+      e3 = _dbus_validate_error_name (&s3, 2, len);
+      b3 = _dbus_validate_bus_name (&s3, 2, len);
+      n3 = _dbus_validate_bus_namespace (&s3, 2, len);
+      p3 = _dbus_validate_path (&s3, 2, len);
+      if (!!m3 != !!m) inconsistent ("member-inside-a-longer-string", s, len, m, m3);
+      if (!!i3 != !!i) inconsistent ("interface-inside-a-longer-string", s, len, i, i3);
+      if (!!e3 != !!e) inconsistent ("error-inside-a-longer-string", s, len, e, e3);
+      if (!!b3 != !!b) inconsistent ("busname-inside-a-longer-string", s, len, b, b3);
+      if (!!n3 != !!n) inconsistent ("namespace-inside-a-longer-string", s, len, n, n3);
+      if (!!p3 != !!p) inconsistent ("path-inside-a-longer-string", s, len, p, p3);
+    }
   if (len >= 8 && len <= 600)
     {
       /* the verdict may not depend on where in memory (or in its DBusString) the text lies: the same bytes at every offset 1..7 */
